@@ -454,16 +454,13 @@ class ExprMixin:
                     if isinstance(pv, VStr) and v.conversion == -1 and v.format_spec is None:
                         pieces.append(pv.t)
                     elif isinstance(pv, VInt) and v.conversion == -1 and v.format_spec is None:
-                        pieces.append(z3.IntToStr(pv.t))
-                        exact = exact and True
+                        pieces.append(self._one(self.bi_str([pv], {}, s, node)).t)
                     else:
-                        exact = False
-            if exact:
-                t = z3.Concat(*pieces) if len(pieces) > 1 else pieces[0]
-                out.append(("val", s, VStr(t)))
-            else:
-                self.abstractions.add("f-string text is an opaque string term")
-                out.append(("val", s, VStr(fresh_const("fmt", ty.StrS))))
+                        # the text of this part is opaque, the literal parts around it are kept
+                        pieces.append(fresh_const("fmtpart", ty.StrS))
+                        self.abstractions.add("formatted non-string parts of an f-string are opaque strings (literal parts are kept)")
+            t = z3.Concat(*pieces) if len(pieces) > 1 else pieces[0]
+            out.append(("val", s, VStr(t)))
         return out
 
     def ev_Lambda(self, node, st):
